@@ -2,6 +2,7 @@
 
 from __future__ import annotations
 
+from copy import copy
 from dataclasses import dataclass, field
 from typing import TYPE_CHECKING, Protocol, cast, runtime_checkable
 
@@ -680,6 +681,12 @@ class ExtType(Type):
     def __str__(self) -> str:
         return _type_str(self.type_def.name, self.args)
 
+    def resolve(self, registry: ext.ExtensionRegistry) -> Type:
+        """Resolve opaque types in the type arguments using the given registry."""
+        resolved = copy(self)
+        resolved.args = [arg.resolve(registry) for arg in self.args]
+        return resolved
+
     def __eq__(self, value):
         # Ignore extra attributes on subclasses
         if isinstance(value, ExtType):
@@ -731,12 +738,14 @@ class Opaque(Type):
         """
         from hugr.ext import ExtensionRegistry, Extension  # noqa: I001 # no circular import
 
+        # opaque types can also appear in the arguments
+        args = [arg.resolve(registry) for arg in self.args]
         try:
             type_def = registry.get_extension(self.extension).get_type(self.id)
         except (ExtensionRegistry.ExtensionNotFound, Extension.TypeNotFound):
-            return self
+            return Opaque(self.id, self.bound, args, self.extension)
 
-        return ExtType(type_def, self.args)
+        return ExtType(type_def, args)
 
     def __str__(self) -> str:
         return _type_str(self.id, self.args)
